@@ -662,3 +662,99 @@ Proof.
       rewrite (equals_refl f F1 (Q1 S1)) in E12. injection E12 as <-. reflexivity.
     + destruct r; reflexivity.
 Qed.
+
+(* ==================== reflective check of the integer packings ==================== *)
+(* The packing expression of a constructor (over the parameter) and the unpacking expression of
+   the AddTo arm (over f.Integer) are both read as chains of conversions; [roundtrip_ok] checks, for
+   every integer constructor of the table, that the concatenated chain returns to the parameter's
+   width and signedness without ever going through a narrower type -- by the low-bits theorem this
+   is exactly what makes the round trip the identity. *)
+Definition is_base (x e : expr) : bool :=
+  match x, e with EVar, EVar => true | EInteger, EInteger => true | _, _ => false end.
+Fixpoint chain_of (x : expr) (e : expr) : option (list num) :=
+  if is_base x e then Some []
+  else match e with
+       | EConv n a => option_map (fun c => c ++ [n]) (chain_of x a)
+       | _ => None
+       end.
+
+Lemma chain_of_eval x e : forall ch r z0, (x = EVar \/ x = EInteger) ->
+  chain_of x e = Some ch -> eval r x = Some (VI z0) -> eval r e = Some (VI (run_chain ch z0)).
+Proof.
+  induction e; intros ch r z0 Hx; cbn [chain_of];
+    try (destruct Hx as [-> | ->]; cbn [is_base]; try discriminate; intros [= <-] E; exact E).
+  destruct (is_base x (EConv n e)) eqn:B.
+  { destruct Hx as [-> | ->]; discriminate B. }
+  destruct (chain_of x e) as [c|] eqn:C; [|discriminate]. cbn [option_map]. intros [= <-] E.
+  cbn [eval]. rewrite (IHe c r z0 Hx eq_refl E). unfold run_chain. rewrite fold_left_app. reflexivity.
+Qed.
+
+(* Field.Integer is an int64: the packing must end in int64 (or be an int64-like parameter itself) *)
+Definition lands64 (n : num) (c1 : list num) : bool :=
+  match rev c1 with [] => same_sw n NInt64 | l :: _ => num_eqb l NInt64 end.
+Definition chain_closed (n : num) (ch : list num) : bool :=
+  match rev ch with
+  | [] => true                                   (* no conversion at all *)
+  | last :: r => same_sw n last && chain_ok n (rev r)
+  end.
+
+Definition int_ctor_ok (c : ctor) : bool :=
+  match c_param c, c_body c with
+  | TNum n, BLit ft KKey (Some ie) None None =>
+      match assoc ft (t_arms T) with
+      | Some (ACall _ (Some ue)) =>
+          match chain_of EVar ie, chain_of EInteger ue with
+          | Some c1, Some c2 => lands64 n c1 && chain_closed n (c1 ++ c2)
+          | _, _ => false
+          end
+      | _ => false
+      end
+  | TNum _, BLit _ _ _ _ _ => false
+  | _, _ => true            (* not an integer struct-literal constructor: covered by C03_roundtrip only *)
+  end.
+Definition roundtrip_ok : bool := forallb int_ctor_ok (t_ctors T).
+
+Lemma roundtrip_ok_true : roundtrip_ok = true.
+Proof. vm_compute. reflexivity. Qed.
+
+Lemma chain_closed_sound n ch z : chain_closed n ch = true -> in_num n z -> run_chain ch z = z.
+Proof.
+  unfold chain_closed. intros H Hz. destruct (rev ch) as [|last r] eqn:R.
+  - apply (f_equal (@rev num)) in R. rewrite rev_involutive in R. subst ch. reflexivity.
+  - apply andb_true_iff in H as [Hs Hc]. apply (f_equal (@rev num)) in R. rewrite rev_involutive in R. cbn in R.
+    subst ch. apply (lowbits_sound n last); assumption.
+Qed.
+
+Lemma lands64_sound n c1 z : lands64 n c1 = true -> in_num n z -> in_numb NInt64 (run_chain c1 z) = true.
+Proof.
+  unfold lands64. intros H Hz. destruct (rev c1) as [|l r] eqn:R.
+  - apply (f_equal (@rev num)) in R. rewrite rev_involutive in R. subst c1. cbn.
+    apply (in_numb_same n); [apply in_numb_iff, Hz|exact H].
+  - apply (f_equal (@rev num)) in R. rewrite rev_involutive in R. cbn in R. subst c1.
+    apply num_eqb_eq in H. subst l. unfold run_chain. rewrite fold_left_app. cbn. apply in_numb_wrap.
+Qed.
+
+(* soundness of the checker: what a passing integer constructor guarantees *)
+Theorem roundtrip_ok_sound : roundtrip_ok = true ->
+  forall c n ft ie m ue, In c (t_ctors T) ->
+    c_param c = TNum n -> c_body c = BLit ft KKey (Some ie) None None ->
+    assoc ft (t_arms T) = Some (ACall m (Some ue)) ->
+    forall stack z, in_num n z ->
+    exists iz, eval (env0 (VI z) stack) ie = Some (VI iz) /\ in_numb NInt64 iz = true /\
+               forall k s x, eval (fenv {| f_ty := 0; f_key := k; f_int := iz; f_str := s; f_ifc := x |} VNil) ue = Some (VI z).
+Proof.
+  intros R c n ft ie m ue I Hp Hb Ha stack z Hz. unfold roundtrip_ok in R.
+  pose proof (forallb_In _ _ _ R I) as H. unfold int_ctor_ok in H. rewrite Hp, Hb, Ha in H.
+  destruct (chain_of EVar ie) as [c1|] eqn:C1; [|discriminate H].
+  destruct (chain_of EInteger ue) as [c2|] eqn:C2; [|discriminate H].
+  apply andb_true_iff in H as [HL HC].
+  exists (run_chain c1 z). split; [|split].
+  - apply (chain_of_eval EVar ie c1 _ z (or_introl eq_refl) C1). reflexivity.
+  - apply (lands64_sound n); assumption.
+  - intros k s x.
+    rewrite (chain_of_eval EInteger ue c2 (fenv {| f_ty := 0; f_key := k; f_int := run_chain c1 z; f_str := s; f_ifc := x |} VNil)
+               (run_chain c1 z) (or_intror eq_refl) C2 eq_refl).
+    f_equal. f_equal. transitivity (run_chain (c1 ++ c2) z).
+    + unfold run_chain. rewrite fold_left_app. reflexivity.
+    + apply (chain_closed_sound n); assumption.
+Qed.
